@@ -7,12 +7,12 @@ VERIF = Path(__file__).resolve().parents[2]
 
 CHECKS = {
     "C15": dict(
-        specs=["Scan.tla", "ScanR.tla", "ScanIO.tla"],
+        specs=["Scan.tla", "ScanR.tla", "ScanIO.tla", "CliTools.tla", "CliToolsIO.tla"],
         text="TLC checks exhaustively (all haystacks/needles over a small alphabet, all buffer sizes, start offsets and "
         "limits) that the scanning algorithm with its carry buffer yields exactly Occ(hay, needle); every scenario of "
         "that model is replayed through the real iter_find_needle / iter_artifactkit_payloads at every buffer size and "
         "compared with the TLC-computed expectation; calls recorded at the real 8192 buffer with needles planted around "
-        "buffer boundaries are judged by TLC against the same reference operators.",
+        "buffer boundaries are judged by TLC against the same reference operators. CliTools.tla models the loop of beacon-artifact (only the first payload found is written; exit status / message) and every hit sequence of <= 3 payloads is replayed through the real main().",
         note="Trusted: TLC, the ScanR operators (written from the property statement), BytesIO/OS file semantics. "
         "Bounded: exhaustive only inside the small constants; beyond them sampled traces.",
         technique="TLA+ algorithm model checked against reference operators by TLC; TLC-generated expectation table "
@@ -20,12 +20,12 @@ CHECKS = {
         design="4/C15",
     ),
     "C09": dict(
-        specs=["XorFileR.tla", "XorFile.tla", "XorFileG.tla", "XorFileTrace.tla", "XorFileIO.tla"],
+        specs=["XorFileR.tla", "XorFile.tla", "XorFileG.tla", "XorFileTrace.tla", "XorFileIO.tla", "CliTools.tla", "CliToolsIO.tla"],
         text="TLC checks that XorEncodedFile's read algorithm (look-behind nonce, first-dword mixing, 4-byte chunk loop, cursor "
         "restore) refines a read-only file over the plaintext for all plaintexts of the small model and every interleaving of "
         "seek/read/tell; the complete state graph of the reference file machine is dumped by TLC and every transition is "
         "replayed on the real object from every core state; random histories on larger stages and real samples are "
-        "recorded and accepted/rejected by the trace specification; detection scenarios are enumerated by the spec.",
+        "recorded and accepted/rejected by the trace specification; detection scenarios are enumerated by the spec. CliTools.tla gives the decision table of beacon-xordecode (auto detection / forced nonce offset; a file that is not XorEncoded ends in the library's ValueError) and each row is replayed through the real main() against the reference decoder.",
         note="Trusted: TLC, XorFileR (Dec/Enc/ReadResult), the harness PE builder and stage encoder (cross-checked against "
         "XorFileR.Stage). Seeks before offset 0 and seek()'s return value are outside the property.",
         technique="TLA+ refinement (algorithm vs file machine) by TLC; state-graph transition replay; trace validation by TLC",
@@ -224,7 +224,7 @@ CHECKS = {
         design="4/C14",
     ),
     "C10": dict(
-        specs=["ProfileProd.tla", "Profile.tla", "ProfileTrace.tla"],
+        specs=["ProfileProd.tla", "Profile.tla", "ProfileTrace.tla", "CliTools.tla", "CliToolsIO.tla"],
         text="Profile.tla is the profile language as a generator automaton over the frozen production table ProfileProd (192 "
         "statement forms in 18 block contexts): a stack of open blocks incl. named and default variants, the emitted token "
         "sequence, the data-transform rule (each group ends with one termination). TLC explores it and its complete states "
@@ -232,7 +232,7 @@ CHECKS = {
         "in quick) are parsed by the library, regenerated, re-lexed by an independent tokenizer and compared token for token, "
         "and reparsed to an identical tree; the same with syntax-laden literals and with concatenations (repeated and empty "
         "blocks, orders). Regenerated texts and the repository's profiles are turned into statement streams that ProfileTrace "
-        "accepts only if they are sentences of the documented language.",
+        "accepts only if they are sentences of the documented language. CliTools.tla gives the decision table of c2profile-dump (profile / beacon input, -a, four output types; unreadable or unparsable profile -> exit 1; beacon input without configuration -> ValueError) and all 96 rows are replayed through the real main().",
         note="Trusted: TLC, ProfileProd.tla (transcribed once from the documented language, module_x64 under its own name), the harness "
         "tokenizer. Comments/whitespace are not tokens.",
         technique="TLA+ generator automaton explored by TLC; dumped sentences replayed through parser+regenerator; regenerated text trace-validated by TLC",
